@@ -18,7 +18,7 @@ SetOf(s) == {s[k] : k \in 1..Len(s)}
 Init == tid = 1 /\ v = V0
 Cell ==
   /\ tid <= Len(Traces)
-  /\ LET w == [entry |-> T.entry, arg |-> T.arg, dir |-> T.dir, input |-> T.input]
+  /\ LET w == [entry |-> T.entry, arg |-> T.arg, dir |-> T.dir, input |-> T.input, hist |-> T.hist]
          res == VAll(<<
            Clause("C20_same", ~T.failing /\ T.signal = "ok", T.digest = T.ref, w),
            Clause("C20_json_same", ~T.failing /\ T.signal = "ok" /\ T.json # "n/a", T.json = T.refjson, w),
